@@ -39,7 +39,8 @@ static void check_tx_string(const std::string& input, const bytes& raw_expected_
         if (ok) rep("c13:accepts-invalid:" + klass, "an encoding the reference rejects is accepted");
         return;
     }
-    if (trailing) { hist["observation:trailing-bytes-" + std::string(ok ? "accepted" : "rejected")]++; return; }   // outside the property's quantifier
+    // bytes after a complete transaction: the string as a whole is not a transaction encoding - it must be rejected, not accepted in part
+    if (trailing) { hist["trailing-bytes-" + std::string(ok ? "accepted" : "rejected")]++; if (ok) rep("c13:accepts-invalid:trailing-bytes:" + klass, "bytes follow a complete transaction and the encoding is accepted (the rest is silently dropped)"); return; }
     if (!ok) { rep(std::string("c13:rejects-valid:") + klass + (threw ? ":exception" : ""), "a well-formed encoding is rejected"); return; }
     const CTransaction& t = *inst.tx;
     std::string diff;
@@ -162,6 +163,9 @@ int main(int argc, char** argv) {
             { Tx u = t; for (auto& in : u.vin) in.witness.clear(); bytes b; put_le(b, uint32_t(u.version), 4); b.push_back(0); b.push_back(1); put_compact(b, u.vin.size()); for (auto& in : u.vin) { put_outpoint(b, in); put_var(b, in.script_sig); put_le(b, in.sequence, 4); } put_compact(b, u.vout.size()); for (auto& o : u.vout) put_txout(b, o); for (size_t i = 0; i < u.vin.size(); i++) b.push_back(0); put_le(b, u.locktime, 4); check_tx_string(hex(b), {}, "witness flag with all-empty stacks", "superfluous-witness", V, h); }
             // non-canonical compact size for the input count and for a script length
             if (!has_witness(t)) { bytes r2(raw.begin(), raw.begin() + 4); r2.push_back(0xfd); r2.push_back(raw[4]); r2.push_back(0); r2.insert(r2.end(), raw.begin() + 5, raw.end()); check_tx_string(hex(r2), {}, "non-canonical compact size for the input count", "noncanonical-size", V, h); }
+            // bytes after the complete transaction
+            for (const char* tail : {"00", "ff", "0000000000", "01000000"}) check_tx_string(hx + tail, {}, std::string("trailing bytes ") + tail, "trailing", V, h);
+            check_tx_string(hx + hx, {}, "the transaction twice", "trailing", V, h);
             // spelling variants
             { std::string sp; for (size_t i = 0; i < hx.size(); i += 2) { sp += hx.substr(i, 2); if (i % 6 == 0) sp += ' '; } check_tx_string(sp, {}, "hex with embedded spaces", "spaces", V, h); }
             { std::string up = hx; for (auto& c : up) c = char(toupper(c)); check_tx_string(up, {}, "upper-case hex", "uppercase", V, h); }
